@@ -356,4 +356,65 @@ theorem gen_load_eq (order : List Plugin) (cfg : List String) (returns : String 
   unfold loadConfiguration Gen.Sections.unknownCheck Gen.Sections.builtinSection
   simp only [gen_digest_eq]
 
+/-- what the model's table says, read off the plugins: `x` is a dependency of `k` iff `k` is installed and
+either lists the installed `x` in `after`, or the installed plugin `x` lists `k` in `before` -/
+theorem has_dependencies (ps : List Plugin) (k x : String) :
+    Has (dependencies ps) k x ↔
+      ∃ p ∈ ps, p.name = k ∧ ((x ∈ p.after ∧ x ∈ ps.map (·.name)) ∨ ∃ q ∈ ps, k ∈ q.before ∧ q.name = x) := by
+  unfold dependencies
+  rw [has_table]
+  constructor
+  · rintro ⟨p, hp, hk, hx⟩
+    refine ⟨p, hp, hk, ?_⟩
+    rw [mem_dedupS] at hx
+    rcases List.mem_append.mp hx with hx | hx
+    · have := List.mem_filter.mp hx
+      exact .inl ⟨this.1, of_decide_eq_true this.2⟩
+    · obtain ⟨q, hq, hqx⟩ := List.mem_map.mp hx
+      have hq' := List.mem_filter.mp hq
+      exact .inr ⟨q, hq'.1, hk ▸ of_decide_eq_true hq'.2, hqx⟩
+  · rintro ⟨p, hp, hk, h⟩
+    refine ⟨p, hp, hk, ?_⟩
+    rw [mem_dedupS]
+    rcases h with ⟨ha, hn⟩ | ⟨q, hq, hb, hqx⟩
+    · exact List.mem_append_left _ (List.mem_filter.mpr ⟨ha, decide_eq_true hn⟩)
+    · exact List.mem_append_right _ (List.mem_map.mpr ⟨q, List.mem_filter.mpr ⟨hq, decide_eq_true (hk ▸ hb)⟩, hqx⟩)
+
+/-- **end to end for the source's loops**: whatever layers `toposort` finds for the table that the two loops of
+`load_section_plugins` build, they put every installed plugin after the installed plugins it names in `after` and
+before those it names in `before` -/
+theorem gen_order_respects (ps : List Plugin) (hnd : (ps.map (·.name)).Nodup) (layers : List (List String))
+    (h : toposort (Gen.Sections.dependencies ps) = some layers) (p q : Plugin) (hp : p ∈ ps) (hq : q ∈ ps)
+    (hne : p.name ≠ q.name) :
+    (q.name ∈ p.after → LayerBefore q.name p.name layers) ∧
+    (q.name ∈ p.before → LayerBefore p.name q.name layers) := by
+  have heq := gen_dependencies_equiv ps
+  have hk : keys (Gen.Sections.dependencies ps) = ps.map (·.name) := by
+    unfold keys; rw [heq.1]; simp [dependencies, Function.comp_def]
+  have hs := toposort_sound (Gen.Sections.dependencies ps) layers (by rw [hk]; exact hnd) h
+  constructor
+  · intro ha
+    have : Has (Gen.Sections.dependencies ps) p.name q.name :=
+      (heq.2 _ _).mpr ((has_dependencies ps _ _).mpr ⟨p, hp, rfl, .inl ⟨ha, List.mem_map.mpr ⟨q, hq, rfl⟩⟩⟩)
+    obtain ⟨ds, hm, hx⟩ := this
+    exact hs.2 p.name ds hm q.name hx (Ne.symm hne)
+  · intro hb
+    have : Has (Gen.Sections.dependencies ps) q.name p.name :=
+      (heq.2 _ _).mpr ((has_dependencies ps _ _).mpr ⟨q, hq, rfl, .inr ⟨p, hp, hb, rfl⟩⟩)
+    obtain ⟨ds, hm, hx⟩ := this
+    exact hs.2 q.name ds hm p.name hx hne
+
+/-- ... and if the constraints between installed plugins are acyclic, `toposort` does find layers for the table the
+loops build: no spurious circular-dependency error -/
+theorem gen_order_exists (ps : List Plugin) (rank : String → Nat)
+    (hafter : ∀ p ∈ ps, ∀ a ∈ p.after, a ∈ ps.map (·.name) → a ≠ p.name → rank a < rank p.name)
+    (hbefore : ∀ p ∈ ps, ∀ q ∈ ps, p.name ∈ q.before → q.name ≠ p.name → rank q.name < rank p.name) :
+    (toposort (Gen.Sections.dependencies ps)).isSome = true := by
+  apply toposort_complete _ rank
+  intro kd hkd y hy hne
+  have : Has (dependencies ps) kd.1 y := ((gen_dependencies_equiv ps).2 _ _).mp ⟨kd.2, hkd, hy⟩
+  obtain ⟨p, hp, hk, h⟩ := (has_dependencies ps _ _).mp this
+  rcases h with ⟨ha, hn⟩ | ⟨q, hq, hb, hqx⟩
+  · rw [← hk]; exact hafter p hp y ha hn (by rw [hk]; exact hne)
+  · rw [← hk, ← hqx]; exact hbefore p hp q hq (by rw [hk]; exact hb) (by rw [hk, hqx]; exact hne)
 end Cobald.Props.C14
